@@ -168,6 +168,14 @@ def write_json_tree(path, tasks):
         json.dump({'token': None, 'tasks': out}, fh)
 
 
+def stimulus_label(name):
+    """the label of a stimulus: its (file) name without the extension; names without a dot
+    are labels already"""
+    if '.' not in name:
+        return name
+    return name[:name.rindex('.')]
+
+
 def pair_values(labels, utv):
     """dict frozenset({label_a, label_b}) -> value of an upper-triangular vector in row-major
     order over `labels`"""
